@@ -445,9 +445,14 @@ int main(int argc, char **argv) {
       if (samples.size() < 6 && op.k >= SWAP2_AB && (swaps % 37) == 1) samples.push_back(hist_str(h) + " | " + op_str(op) + " -> " + r.key_after);
       if (r.nfail) {
         ++viol_total;
-        std::string norm = std::string(kn[op.k]) + "|" + vf::L().fails[0].tags + "|";
-        for (const char *c = vf::L().fails[0].msg; *c; ++c) norm += (*c >= '0' && *c <= '9') ? '#' : *c;
-        if (sigs.emplace(norm, 1).second && viols.size() < 100) viols.push_back(VRec{vf::L().fails[0].tags, vf::L().fails[0].msg, hist_str(h), op_str(op), keys[cur]});
+        std::string tags_seen;  // the first failure of every distinct tag set
+        for (int f = 0; f < vf::L().nfail; ++f) {
+          if (tags_seen.find(std::string("|") + vf::L().fails[f].tags + "|") != std::string::npos) continue;
+          tags_seen += std::string("|") + vf::L().fails[f].tags + "|";
+          std::string norm = std::string(kn[op.k]) + "|" + vf::L().fails[f].tags + "|";
+          for (const char *c = vf::L().fails[f].msg; *c; ++c) norm += (*c >= '0' && *c <= '9') ? '#' : *c;
+          if (sigs.emplace(norm, 1).second && viols.size() < 100) viols.push_back(VRec{vf::L().fails[f].tags, vf::L().fails[f].msg, hist_str(h), op_str(op), keys[cur]});
+        }
         continue;
       }
       if (seen.find(r.key_after) == seen.end()) {
